@@ -35,7 +35,6 @@ const FORBIDDEN_SUBSTR: &[&str] = &[
     "core::sync",
     "std::cell",
     "core::cell",
-    "UnsafeCell",
     "thread_local",
     "lazy_static",
     "once_cell",
@@ -319,7 +318,20 @@ fn rewrite(src: &str, tool: &str) -> Rewritten {
             || !toks[i - 2].text.bytes().next().map(is_ident).unwrap_or(false);
         if is_root && rooted && toks[i + 1].text == "::" {
             let seg = toks[i + 2].text.as_str();
-            if seg == "sync" || seg == "thread" {
+            if seg == "cell" {
+                // `std::cell::UnsafeCell` -> the harness's `crate::stdcell::UnsafeCell` (std's type,
+                // re-exported): invisible to the tools, but a lock built on it still has to go
+                // through tool atomics (checked below), and the guarded value's own tool atomics
+                // expose any overlap of two critical sections.
+                let mut s = toks[i].start;
+                if i >= 1 && toks[i - 1].text == "::" {
+                    s = toks[i - 1].start;
+                }
+                edits.push((s, toks[i + 2].end, "crate::stdcell".to_string()));
+                i += 3;
+                continue;
+            }
+            if seg == "sync" || seg == "thread" || seg == "hint" {
                 // replace only the `std` token: `std::sync::Mutex` -> `loom::sync::Mutex`;
                 // a leading `::` (`::std::sync`) is replaced together with it.
                 let mut s = toks[i].start;
@@ -389,7 +401,8 @@ fn check(rew: &Rewritten, tool: &str, src_path: &str) {
     let squeezed: String = code.chars().filter(|c| !c.is_whitespace()).collect();
 
     // (a) the lock primitive must have been re-bound to the tool
-    let has_prim = toks.iter().any(|t| t.text == "Mutex" || t.text == "RwLock");
+    // (a hand-rolled lock on atomics counts too: the atomics are the tool's after the rewrite)
+    let has_prim = toks.iter().any(|t| t.text == "Mutex" || t.text == "RwLock" || t.text.starts_with("Atomic"));
     if rew.sync_rewrites == 0 || !has_prim {
         panic!(
             "binding lost: no `std::sync::Mutex` (or `std::sync::RwLock`) path found/replaced in {} \
